@@ -488,6 +488,9 @@ func stlGenModel(r *fw.Rand, enumerate [][]byte) stlModel {
 	}
 	for k := 0; k < n; k++ {
 		c := stlCue{TCI: stlGenTC(r, m.G.FPS, minH), TCO: stlGenTC(r, m.G.FPS, minH), VP: byte(r.Intn(30)), JC: byte(r.Intn(4))}
+		if n := len(m.Cues); n > 0 && r.P(1, 8) {
+			c.TCI, c.TCO = m.Cues[n-1].TCI, m.Cues[n-1].TCO // two cues over the same interval
+		}
 		nrows := r.Range(1, 3)
 		if enumerate != nil {
 			nrows = 8
